@@ -69,6 +69,7 @@ func rangeLoops(fn *ssa.Function, pred func(ssa.Value) bool) []rangeLoop {
 
 func runC19(c *Ctx) {
 	p := c.P
+	renderProgram = p
 	ek := EKOf(p)
 	// R1: discover the matcher: a lang function with a []Expr parameter and (bool, _, error) results
 	var matcher *ssa.Function
@@ -280,17 +281,19 @@ func runC19(c *Ctx) {
 	c.check(bodyOK, "R3", "body-value", p.InstrPos(verdictIf), "expression body yields its value, block body yields null", why)
 }
 
-// isFreshNullCell: NewCell(NewValue(nil))
+// isFreshNullCell: NewCell(NewValue(nil)), possibly through a trivial helper (the renderer
+// inlines single-block helpers).
 func isFreshNullCell(v ssa.Value) bool {
-	c1, _ := callOf(v)
-	if c1 == nil || !staticCalleeIs(c1, "lang.NewCell") {
-		return false
+	return renderGlobal(v) == "&lang.Cell{Value: lang.NewValue(nil)}"
+}
+
+var renderProgram *Program
+
+func renderGlobal(v ssa.Value) string {
+	if renderProgram == nil {
+		return ""
 	}
-	c2, _ := callOf(c1.Call.Args[0])
-	if c2 == nil || !staticCalleeIs(c2, "lang.NewValue") {
-		return false
-	}
-	return isNilIface(c2.Call.Args[0])
+	return renderProgram.Render(v)
 }
 
 // matchBodyResults: every successful return on the matched edge returns either the value of the
